@@ -658,17 +658,20 @@ def extra_stage(rep, ctx):
 
 
 MANIFEST = dict(
-    text=("48 Lean 4 theorems about definitions REGENERATED on every run from the clang AST of LinearSpace.h / AffineSpace.h / "
+    text=("70 Lean 4 theorems about definitions REGENERATED on every run from the clang AST of LinearSpace.h / AffineSpace.h / "
           "Quaternion.h (82 wrappers, 200+ translated functions): M*inverse(M) = inverse(M)*M = 1 and rcp(A)*A = A*rcp(A) = 1 "
           "(det != 0), (A*B)p = A(Bp) for linear and affine maps, det multiplicative, adjoint/transposed/rows by components, "
           "xfmPoint/xfmVector/xfmNormal = full map / linear part / inverse transpose, rotate(axis,angle) orthogonal with det 1, "
           "fixing the axis, trace 1+2cos (given s^2+c^2=1 and a square-root law), 2D rotation proper, the matrix of a quaternion "
           "acts as q v conj(q), Hamilton product associative / norm-multiplicative / composing rotations, yaw-pitch-roll = "
-          "qY*qX*qZ, scale/translate/rotate-about-a-point fix the documented axes and point, lookat has det -1 and frame det +1 "
-          "with orthonormal axes — over any ordered field with abstract sin/cos/sqrt. The regenerated definitions are also executed "
+          "qY*qX*qZ, scale/translate/rotate-about-a-point fix the documented axes and point, lookat has det -1 and frame det +1; "
+          "frame(N), frame(N,up) (all unit N, up incl. parallel/anti-parallel) and lookat are orthonormal — the helper axis is never "
+          "the zero vector; slerp(0,a,b) = ±a and slerp(1,a,b) = b in both branches and slerp takes the short way; the quaternion "
+          "rebuilt from the rotation matrix of a unit quaternion q is q or -q in each of the four branches, whose pivot is never 0 "
+          "— over any ordered field with abstract sin/cos/acos and a square-root law (satisfiable: shown for the reals). The regenerated definitions are also executed "
           "at Float32 (libm sinf/cosf/acosf/sqrtf) and compared bit for bit with the real functions; an independent double-precision "
           "reference (Rodrigues, cofactor inverse, standard slerp) checks every wrapper within a conditioned tolerance."),
     note=("Trusted: Lean kernel + propext/Classical.choice/Quot.sound; clang-14 AST + tools/cpp2lean.py (validated each run by the "
           "bit-exact correspondence); exact-field arithmetic instead of IEEE rounding ('within tolerance' is observed, not proved); "
-          "the four matrix->quaternion branches, slerp and orthogonal() are covered by translation + reference oracle only (no theorem yet)."),
+          "slerp between its end points and orthogonal() (a loop, outside the translator's subset) are covered by the reference oracle only; double-precision instantiations (incl. the mixed-precision overloads they alone use) are covered by the reference oracle only."),
     technique="Lean 4 proof (ring/linear_combination identities) over a model regenerated from the C++ AST + bit-exact differential check + reference oracle")
